@@ -252,11 +252,11 @@ theorem seu_unescapeAux_escape (s : Bytes) :
       have := ih m (by simp at hn; omega)
       simp [seu_unescapeAux_plain, h38, this]
 
-theorem unescape_escape (s : Bytes) : StrF.unescape (StrF.escape s) = some s :=
+theorem unescape_escape_lemma (s : Bytes) : StrF.unescape (StrF.escape s) = some s :=
   seu_unescapeAux_escape s _ (Nat.le_refl _)
 
 theorem escapeOnce_escape (s : Bytes) : StrF.escapeOnce (StrF.escape s) = some (StrF.escape s) := by
-  simp [StrF.escapeOnce, unescape_escape]
+  simp [StrF.escapeOnce, unescape_escape_lemma]
 
 theorem seu_escapeOnce_some (s t : Bytes) (h : StrF.escapeOnce s = some t) :
     ∃ u, StrF.unescape s = some u ∧ t = StrF.escape u := by
